@@ -5,7 +5,7 @@ from __future__ import annotations
 import asyncio
 import itertools
 
-from sim.net import World
+from sim.net import World, DEFAULT_LATENCY
 from sim import refdecode as R
 from . import common as C
 from . import devices
@@ -101,6 +101,10 @@ def run_config(case, monitor_reads=False, calls=None):
     world.net.add_device(C.HOST, C.port_of(tr), dev)
     if case.get("mbap_len"):
         dev.mbap_len = case["mbap_len"]
+    if case.get("keep_alive"):
+        inv.set_keep_alive(True)
+    if case.get("dup_exc"):
+        world.net.dup_exceptions = 3 * DEFAULT_LATENCY
     obs = {"world": world, "dev": dev, "inv": inv, "family": fam, "transport": tr, "serial": serial, "polls": [],
            "short_reads": [], "info": None}
 
